@@ -274,6 +274,75 @@ def pat_label(p):
     return H.pat_desc(p)
 
 
+def bool_tuple_match(scrut, arms):
+    """`match (a, b) { (true, _) => .., (false, true) => .., (false, false) => .. }` over a tuple of booleans: per arm the
+    condition under which it is taken *given that the earlier arms were not* (None for an arm that takes everything left), or None
+    when the match is not of that form."""
+    if not (isinstance(scrut, tuple) and scrut[0] == "tuple"):
+        return None
+    n = len(scrut[1])
+    rows = []
+    for a in arms:
+        if a.get("guard"):
+            return None
+        p = a["pat"]
+        if p.get("k") == "Wild":
+            rows.append([None] * n)
+            continue
+        if p.get("k") != "Tuple" or len(p["pats"]) != n:
+            return None
+        row = []
+        for q in p["pats"]:
+            if q.get("k") == "Wild" or (q.get("k") == "Binding" and not q.get("sub")):
+                row.append(None)
+            elif q.get("k") == "Expr" and q.get("lit") == "bool":
+                row.append(bool(q["v"]))
+            else:
+                return None
+        rows.append(row)
+    import itertools
+    remaining = set(itertools.product([True, False], repeat=n))
+    conds = []
+    for row in rows:
+        taken = {a for a in remaining if all(v is None or a[j] == v for j, v in enumerate(row))}
+        if taken == remaining:
+            conds.append(None)          # everything that is left: the else branch
+            remaining = set()
+            continue
+        # literals of the row that actually discriminate among what is left
+        lits = []
+        for j, v in enumerate(row):
+            if v is None:
+                continue
+            if all(a[j] == v for a in remaining):
+                continue
+            lits.append(scrut[1][j] if v else ("not", scrut[1][j]))
+        c = lits[0] if lits else ("lit", True)
+        for l in lits[1:]:
+            c = ("binop", "And", c, l)
+        conds.append(c)
+        remaining -= taken
+    return conds
+
+
+def _bool_patterns(arms):
+    """every arm pattern is a wildcard or a tuple of boolean literals / wildcards, without guards"""
+    if not arms:
+        return False
+    for a in arms:
+        if a.get("guard"):
+            return False
+        p = a["pat"]
+        if p.get("k") == "Wild":
+            continue
+        if p.get("k") != "Tuple":
+            return False
+        for q in p["pats"]:
+            if not (q.get("k") == "Wild" or (q.get("k") == "Expr" and q.get("lit") == "bool")):
+                return False
+    return True
+
+
 def option_match(labels, arms):
     """Index of the Some/Ok arm of a two-armed match over an Option/Result without guards, else None."""
     if len(labels) != 2 or any(a.get("guard") for a in arms):
@@ -353,6 +422,15 @@ class NF:
                 env_a = env.child()
                 bind_pattern(a["pat"], scrut, env_a)
                 arms.append((pat_label(a["pat"]), self.nf(a["body"], env_a)))
+            btm = bool_tuple_match(scrut, e["arms"])
+            if btm is not None:
+                v = arms[-1][1]
+                for (c, (_, val)) in reversed(list(zip(btm, arms))[:-1] if btm[-1] is None else list(zip(btm, arms))):
+                    if c is None:
+                        v = val
+                    else:
+                        v = ("ifelse", c, val, v)
+                return v
             if len(arms) == 2 and not any(a.get("guard") for a in e["arms"]):
                 # `match opt { Some(x) => a, None => b }` is `if let Some(x) = opt { a } else { b }`
                 labels = [l for l, _ in arms]
@@ -663,6 +741,141 @@ class CallEv:
         self.site = H.sp(node)
 
 
+def _split_emit(ev):
+    """One emit per output line: a template with newlines inside becomes several emits (same site, same context)."""
+    pieces = [[]]
+    for p in ev.parts:
+        if p[0] != "lit" or "\n" not in p[1][:-1]:
+            pieces[-1].append(p)
+            continue
+        chunks = p[1].split("\n")
+        for i, ch in enumerate(chunks):
+            last = i == len(chunks) - 1
+            text = ch + ("" if last else "\n")
+            if text:
+                pieces[-1].append(("lit", text))
+            if not last:
+                pieces.append([])
+    pieces = [pc for pc in pieces if pc]
+    if len(pieces) <= 1:
+        return [ev]
+    return [Emit(ev.fn, ev.node, ev.fa, tuple(pc), ev.ctx, ev.propagated, ev.order, ev.sink) for pc in pieces]
+
+
+def _ends_line(ev):
+    last = ev.parts[-1] if ev.parts else None
+    return last is None or (last[0] == "lit" and last[1].endswith("\n")) or (len(ev.parts) == 1 and last[0] == "hole")
+
+
+def _join_run(run):
+    """run: consecutive emits that together write one line (all but the last do not end in a newline). Returns one emit per
+    consistent choice of the branch conditions that distinguish them, or None when the run cannot be read as alternatives."""
+    base = run[0].ctx
+    n = 0
+    for e in run[1:]:
+        k = 0
+        while k < len(base) and k < len(e.ctx) and base[k] == e.ctx[k]:
+            k += 1
+        base = base[:k]
+    extra = []
+    for e in run:
+        for c in e.ctx[len(base):]:
+            if c[0] != "alt":
+                return None   # a loop inside a line: left alone
+            if (c[1]) not in extra:
+                extra.append(c[1])
+    if len(extra) > 4:
+        return None
+    out = []
+    import itertools
+    for vals in itertools.product([True, False], repeat=len(extra)):
+        assign = dict(zip(extra, vals))
+        parts = []
+        used = []
+        for e in run:
+            if all(assign[c[1]] == c[2] for c in e.ctx[len(base):]):
+                parts += list(e.parts)
+                used += [c[1] for c in e.ctx[len(base):]]
+        if not parts:
+            continue
+        merged = []
+        for p in parts:
+            if p[0] == "lit" and merged and merged[-1][0] == "lit":
+                merged[-1] = ("lit", merged[-1][1] + p[1])
+            else:
+                merged.append(p)
+        ctx = base + tuple(("alt", c, assign[c]) for c in extra if c in used)
+        key = (tuple(merged), ctx)
+        if key not in [(o.parts, o.ctx) for o in out]:
+            first = run[0]
+            prop = first.propagated if all(e.propagated == first.propagated for e in run) else next(e.propagated for e in run if e.propagated != "try")
+            out.append(Emit(first.fn, first.node, first.fa, tuple(merged), ctx, prop, first.order, first.sink))
+    # a choice irrelevant to the text yields duplicates that differ only in context: keep them (they are alternatives)
+    return out
+
+
+def normalize_lines(events):
+    """Canonical granularity of the output grammar: exactly one line of output per emit. Templates holding several lines are split,
+    consecutive partial writes (`write!` .. `writeln!`) of one function are joined into the line they produce (one emit per
+    combination of the branches taken in between)."""
+    split = []
+    for ev in events:
+        split += _split_emit(ev) if ev.kind == "emit" else [ev]
+    out = []
+    i = 0
+    while i < len(split):
+        ev = split[i]
+        if ev.kind != "emit" or _ends_line(ev):
+            out.append(ev)
+            i += 1
+            continue
+        j = i
+        run = []
+        ended = []   # contexts of the emits that completed the line so far
+        ok = True
+        while j < len(split):
+            e = split[j]
+            if e.kind != "emit":
+                ok = False
+                break
+            if ended and not any(_exclusive_ctx(e.ctx, c) for c in ended):
+                break   # this emit can follow a completed line: it starts the next one
+            run.append(e)
+            j += 1
+            if _ends_line(e):
+                ended.append(e.ctx)
+                if not [c for c in e.ctx[len(_common(run)):] if c[0] == "alt"]:
+                    break
+        ok = ok and bool(run) and bool(ended)
+        joined = _join_run(run) if ok and len(run) > 1 else None
+        if joined:
+            for je in joined:
+                out += _split_emit(je)
+            i = j
+        else:
+            out.append(ev)
+            i += 1
+    for k, ev in enumerate(out):
+        ev.order = k
+    return out
+
+
+def _exclusive_ctx(c1, c2):
+    """two contexts that cannot both hold: opposite branches of one condition"""
+    a1 = {(c[1], c[2]) for c in c1 if c[0] == "alt"}
+    return any((c[1], not c[2]) in a1 for c in c2 if c[0] == "alt")
+
+
+def _common(run):
+    base = run[0].ctx
+    for e in run[1:]:
+        k = 0
+        while k < len(base) and k < len(e.ctx) and base[k] == e.ctx[k]:
+            k += 1
+        base = base[:k]
+    return base
+
+
 class Extractor:
     def __init__(self, facts):
         self.F = facts
@@ -732,6 +945,8 @@ class Extractor:
         self.params[path] = names
         out = []
         self._visit(path, nb["value"], env, (), out, how="tail")
+        if CANON:
+            out = normalize_lines(out)
         return out
 
     def _writes(self, e):
@@ -794,6 +1009,16 @@ class Extractor:
             scrut = self.NF.nf(e["scrut"], env)
             labels = [pat_label(a["pat"]) for a in e["arms"]]
             some = option_match(labels, e["arms"])
+            btm = bool_tuple_match(scrut, e["arms"])
+            if btm is not None:
+                failed = ()
+                for c, a in zip(btm, e["arms"]):
+                    env_a = env.child()
+                    bind_pattern(a["pat"], scrut, env_a)
+                    self._visit(fn, a["body"], env_a, ctx + failed + ((("alt", c, True),) if c is not None else ()), out, how)
+                    if c is not None:
+                        failed = failed + (("alt", c, False),)
+                return
             for i, a in enumerate(e["arms"]):
                 env_a = env.child()
                 bind_pattern(a["pat"], scrut, env_a)
@@ -1156,8 +1381,9 @@ class CallExpander:
         for x in H.exprs(nb["value"]):
             if x.get("k") in ("For", "Loop", "Ret", "Try"):
                 return None
-            if x.get("k") == "Match" and option_match([pat_label(a["pat"]) for a in x.get("arms", [])], x.get("arms", [])) is None:
-                return None  # only `match opt { Some(..) => .., None => .. }`, which reads as if-let; tables and variant dispatch stay opaque calls
+            if x.get("k") == "Match" and option_match([pat_label(a["pat"]) for a in x.get("arms", [])], x.get("arms", [])) is None \
+                    and not _bool_patterns(x.get("arms", [])):
+                return None  # only matches that read as if/else (option, tuple of booleans); tables and variant dispatch stay opaque calls
         v = self.NF.nf(nb["value"], env)
         if any(r[0] in ("unknown", "local") for r in nf_roots(v)):
             return None
